@@ -145,7 +145,7 @@ theorem apply_add_aka (m : List (String × Json)) (us : List String) (hfresh : J
     simp [List.filterMap_map, hc]
   have hl : listOrNull (us.map Json.str) = .arr (us.map .str) := listOrNull_ne _ (by simpa using hne)
   have hf : us.filter (fun _ => true) = us := List.filter_eq_self.mpr (fun _ _ => rfl)
-  simp [applyPatch, hp, hv, stringArray, Json.get?, hfresh, hs, orderedUnion, setDoc, members, hf, hl]
+  simp [applyPatch, hp, hv, stringArray, Json.get?, hfresh, hs, akaUnion, rawList, setDoc, members, hf, hl]
 
 theorem apply_ietf_adds (m : List (String × Json)) (O : List (String × Json)) (h : ∀ kv ∈ O, ordinaryName kv.1 = true) :
     applyPatch (.obj m) (mkPatch "ietf-json-patch" "patches" (.arr (O.map addOp))) = .ok (.obj (setAll m O)) := by
